@@ -171,7 +171,7 @@ func init() {
 	control(&Control{ID: "mdgateout-no-filter", Rule: "MD-GATE-OUT", File: "larking/grpc.go",
 		Old: "\t\tif isReservedResponseHeader(k) {\n\t\t\tcontinue\n\t\t}\n", New: "", Expect: "reserved-filter", Why: "handler metadata copied without the reserved filter"})
 	control(&Control{ID: "mdgatein-no-lower", Rule: "MD-GATE-IN", File: "larking/grpc.go",
-		Old: "\t\tk = strings.ToLower(k)\n", New: "", Expect: "lower-case", Why: "metadata keys keep canonical header case"})
+		Old: "\t\tk = strings.ToLower(k)\n\t\tif isReservedHeader(k) && !isWhitelistedHeader(k) {\n", New: "\t\tif isReservedHeader(k) && !isWhitelistedHeader(k) {\n", Expect: "lower-case", Why: "metadata keys keep canonical header case"})
 	control(&Control{ID: "binpadding-raw", Rule: "BIN-PADDING", File: "larking/grpc.go",
 		Old: "b, err = base64.StdEncoding.DecodeString(v)", New: "b, err = base64.RawStdEncoding.DecodeString(v)", Expect: "padded-and-unpadded", Why: "restore D14"})
 	control(&Control{ID: "identbranch-raw", Rule: "IDENT-BRANCH", File: "larking/grpc.go",
